@@ -210,7 +210,7 @@ def rand_history(rng, ln):
 
 def gen(chk):
     rng = chk.rng
-    n_rand = 30000 if chk.thorough else 2000
+    n_rand = 25000 if chk.thorough else 2000
     hist = []
     for _ in range(n_rand):
         ln = 1 + rng.below(40)
